@@ -510,8 +510,8 @@ func (b *Branch) Connect(ctx context.Context, store storage.Storage,
 	}
 
 	// Add headers after branch
-	height := parentHeight + 1
-	startOffset := height - b.PrunedLowestHeight() + 1
+	height := parentHeight + 2
+	startOffset := height - b.PrunedLowestHeight()
 	for _, header := range b.headers[startOffset:] {
 		result.add(header, height)
 		height++
